@@ -44,6 +44,10 @@ def gen_case(rng, transport, big_ok):
     # spawn() encodes the command line with the instance encoding, so the pty
     # transport can only use ASCII-compatible BOM-less codecs
     enc = rng.choice([None, None, 'utf-8', 'latin-1', 'utf-16' if transport != 'pty' else 'cp1252'])
+    if transport == 'pty' and rng.random() < 0.25:
+        # ASCII-compatible all the same, but stateful (a pending return-to-ASCII escape after non-ASCII text) or with
+        # an encoded form of its own for control characters: a control character is one raw byte whatever the encoding
+        enc = rng.choice(['iso2022_jp', 'utf-7', 'shift_jis', 'hz'])
     calls = []
     for _ in range(rng.randint(1, 12)):
         r = rng.random()
